@@ -387,16 +387,16 @@ type skeleton struct {
 }
 
 type skelBuilder struct {
-	e       *Env
-	te      *tplabs.Env
-	rd      *tplabs.Renderer
-	fr      *frags
-	scopes  []*types.Const
-	argSeq  int
-	marker  int
-	imp     *skelImporter
-	fset    *token.FileSet
-	allArgs map[string]int
+	e        *Env
+	te       *tplabs.Env
+	rd       *tplabs.Renderer
+	fr       *frags
+	scopes   []*types.Const
+	argSeq   int
+	marker   int
+	imp      *skelImporter
+	fset     *token.FileSet
+	allArgs  map[string]int
 	lastKind string
 }
 
@@ -434,7 +434,9 @@ func (b *skelBuilder) nextArg(al tplabs.Aliaser, svcNames []string) (code string
 	u := userPkgs[b.argSeq%2]
 	forms := []func() (string, any){
 		func() (string, any) { return f.value(fmt.Sprintf("int(%d)", 100000+b.marker)), 100000 + b.marker },
-		func() (string, any) { return f.service(svcNames[b.argSeq%len(svcNames)]), "@" + svcNames[b.argSeq%len(svcNames)] },
+		func() (string, any) {
+			return f.service(svcNames[b.argSeq%len(svcNames)]), "@" + svcNames[b.argSeq%len(svcNames)]
+		},
 		func() (string, any) { return f.tagged("tag-a"), "!tagged tag-a" },
 		func() (string, any) { return f.value(al.Alias(u) + ".V"), "!value " + u + ".V" },
 		func() (string, any) { return f.value("&" + al.Alias(u) + ".T{}"), "!value &pkg.T{}" },
